@@ -111,9 +111,12 @@ void _ZN4bloc12RuntimeErrorC1ENS_6EXC_RTE(struct RuntimeError *this, unsigned in
 {
   this->no = no;
 }
+#ifndef RTE_ARG_HOOK
+#define RTE_ARG_HOOK(e, arg) ((void)(arg))
+#endif
 void _ZN4bloc12RuntimeErrorC1ENS_6EXC_RTEPKc(struct RuntimeError *this, unsigned int no, const char *arg)
 {
-  (void)arg;
+  RTE_ARG_HOOK(this, arg);
   this->no = no;
 }
 #endif
